@@ -31,14 +31,21 @@ From V Require Export Crash.Storage.
 Section Proto.
 Variable H : bytes -> bytes.
 
+(* ahtree.ResetSize to a smaller size: what happens to the tree's commit log *)
+Inductive rmode :=
+| RMem    (* sizes lowered in memory only (the code before fix 6a85281) *)
+| RCut    (* the commit log is rewound = truncated, NOT fsynced (the code as it is, fix 6a85281) *)
+| RSync.  (* rewound and fsynced (proposed repair fixes/C03-aht-durable-reset.diff) *)
+
 Record cfg := mkCfg {
   c_thld : N;        (* AHTOpts.SyncThld *)
   c_maxact : N;      (* MaxActiveTransactions *)
   c_prealloc : bool; (* PreallocFiles *)
   c_psize : N;       (* bytes preallocated (zero-filled) in the tx and commit logs *)
-  c_ahtreset : bool; (* NOT an option of the store: false = the code as it is; true = the code with the
-                        proposed repair fixes/C03-aht-durable-reset.diff (ahtree.ResetSize rewinds the tree's
-                        commit log and fsyncs it BEFORE the payload/digest logs can be truncated) *)
+  c_ahtreset : rmode; (* NOT an option of the store: which ahtree.ResetSize the model runs.  RCut = the code
+                        as it is; RSync = the code with the proposed repair fixes/C03-aht-durable-reset.diff
+                        (the tree's commit log is rewound AND fsynced before the payload/digest logs can be
+                        truncated); RMem = history *)
   c_preallocfix : bool; (* NOT an option: true = proposed repair fixes/C03-prealloc-clog-trim.diff (OpenWith
                         ignores a partially written last commit-log entry of a preallocated commit log) *)
   c_ahtsync : bool   (* NOT an option of the store: true = the code since fix b260503 (store.sync() fsyncs the
@@ -177,19 +184,27 @@ Definition aht_sync (a : aht) : res aht :=
       Ok (mkAht d c2 (a_size a) (a_latest a + a_cnt a) 0)
   end.
 
-Definition aht_reset (dur : bool) (a : aht) (n : N) : res aht :=
+Definition aht_reset (m : rmode) (a : aht) (n : N) : res aht :=
   if a_size a <? n then Err EOther            (* ErrCannotResetToLargerSize *)
   else if a_size a =? n then Ok a
   else do a1 <- aht_sync a;
-       if dur then
-         (* proposed repair: the tree's commit log is rewound and fsynced first *)
-         match f_setoffset (a_c a1) (12 * n) with
-         | None => Err EOther
-         | Some c1 => Ok (mkAht (a_d a1) (f_sync c1) n n 0)
-         end
-       else
-         (* sizes are lowered IN MEMORY only; the tree's commit log keeps its tail on disk *)
-         Ok (mkAht (a_d a1) (a_c a1) n n 0).
+       match m with
+       | RMem =>
+           (* sizes are lowered IN MEMORY only; the tree's commit log keeps its tail on disk *)
+           Ok (mkAht (a_d a1) (a_c a1) n n 0)
+       | RCut =>
+           (* fix 6a85281: cLog.SetOffset(newSize*12), a truncation since 09014a8, pending *)
+           match f_setoffset (a_c a1) (12 * n) with
+           | None => Err EOther
+           | Some c1 => Ok (mkAht (a_d a1) c1 n n 0)
+           end
+       | RSync =>
+           (* proposed repair: ... and fsynced *)
+           match f_setoffset (a_c a1) (12 * n) with
+           | None => Err EOther
+           | Some c1 => Ok (mkAht (a_d a1) (f_sync c1) n n 0)
+           end
+       end.
 
 Definition aht_append (thld : N) (a : aht) (leaf : bytes) : res aht :=
   match f_setoffset (a_d a) (32 * a_size a) with
